@@ -453,7 +453,7 @@ def conc_value(T, rng, variant):
         if T is VarInt:
             return [0, (1 << 31) - 1][variant] if r is None else r.choice([0, 1, 127, 128, (1 << 31) - 1, r.getrandbits(31)])
         if T is VarLong:
-            return r.getrandbits(60) if r else 5
+            return r.choice([r.getrandbits(60), (1 << 63) - 1, 1 << 42]) if r else [5, (1 << 63) - 1][variant]
         if tn in SCALARS and SCALARS[tn][1] in (True, False):
             lo, hi = dom(tn)
             return r.choice([lo, hi, 0, r.randint(lo, hi)]) if r else [lo, hi][variant]
@@ -476,7 +476,8 @@ def conc_value(T, rng, variant):
         if T is MultiBlockChangePacket.ChunkSectionPos:
             return T(-(1 << 21), (1 << 19) - 1, 7)
         if T is MultiBlockChangePacket.Record:
-            return T(x=15, y=3, z=0, block_state_id=909)
+            # a large id makes the VarLong form of the record (protocol >= 741) need more than five bytes
+            return T(x=15, y=3, z=0, block_state_id=(1 << 30) + 909 if variant else 909)
         if T is ExplosionPacket.Record:
             return T(-128, 127, 3)
         if T is SoundEffectPacket.EffectPosition:
